@@ -206,6 +206,8 @@ class Check:
             msg = st.direct_check(c, o)
             # results handed out earlier must not change: the harness keeps the slice the previous call returned and
             # reports it again as "prev_now" (streams name the output field that holds it in `retained_field`)
+            if not msg and isinstance(o, dict) and "input_after" in o:
+                msg = "the decoder wrote into its input buffer: it now reads %s" % o["input_after"][:120]
             rf = getattr(st, "retained_field", None)
             if not msg and rf and i > 0 and isinstance(o, dict) and "prev_now" in o and isinstance(obs[i - 1], dict) and rf in obs[i - 1]:
                 if o["prev_now"] != obs[i - 1][rf]:
